@@ -296,6 +296,30 @@ def gen_problem(rng, with_objectives=False, allow_custom=True, custom_kinds=None
         if rng.random() < 0.5:
             os_.reverse()
         cs = [c for c in cs if c[0] in ("AvoidPattern",)]
+    elif with_objectives and fam < 0.66:
+        # EnforceChanges as a constraint that asks for (nearly) every position of a region to differ from a
+        # stored reference, WITHOUT being written as 100 % (an absolute minimum, or a percentage that rounds
+        # up to the whole region): nothing is restricted, the constraint has to be evaluated; objectives
+        # that gain by writing the reference's nucleotides back
+        n2 = len(seq)
+        a = rng.randint(0, max(0, n2 - 10))
+        b = rng.randint(a + 6, min(n2, a + 16))
+        L = b - a
+        ref = "".join(rng.choice([c for c in "ACGT" if c != seq[i]]) for i in range(a, b))
+        amount = rng.choice([dict(minimum=L), dict(minimum=L), dict(minimum_percent=99), dict(minimum=L - 1), dict(minimum_percent=90)])
+        cs = [("EnforceChanges", kw(location=(a, b, 0), reference=ref, **amount))]
+        os_ = [rng.choice([("EnforceSequence", kw(location=(a, b, 1), sequence=ref, boost=1.0)),
+                           ("EnforceGCContent", kw(target=rng.choice([0.0, 1.0]), window=4, boost=1.0, location=None)),
+                           ("AvoidPattern", kw(pattern=max("ACGT", key=seq[a:b].count), boost=1.0, location=None))])]
+        if rng.random() < 0.4:
+            os_.append(("AvoidChanges", kw(boost=0.5, location=None)))
+    if len(os_) >= 2 and not any(dict(o[1]).get("passive") for o in os_) and rng.random() < 0.2:
+        # in the families too, one objective may be passive (it weighs in every local problem of the others)
+        i = rng.randrange(len(os_))
+        d = dict(os_[i][1])
+        d["passive"] = True
+        os_ = list(os_)
+        os_[i] = (os_[i][0], tuple(sorted(d.items())))
     return dict(seq=seq, constraints=tuple(cs), objectives=tuple(os_), cfg=gen_settings(rng),
                 np_seed=rng.randint(0, 10**6))
 
